@@ -72,6 +72,8 @@ static void vf_eof_did_pop(int has_current);
 static void vf_eof_switch_saved(void);
 static int vf_eof_new_yyin(void);
 static int vf_action_push(void);
+static int vf_action_input(void);
+static void vf_did_input_b(int ch, int lineno);
 static int vf_action_src(void);
 static void vf_action_pushed(void);
 static char vf_fake_file[];
